@@ -15,7 +15,15 @@ package main
 //     a slice of a variable).  Two arguments of one call that alias each other are not detected (trusted base);
 //   - calls nested in expressions are hoisted into temporaries in evaluation order; a call under && / || or in a
 //     loop condition is rejected;
-//   - shadowing of a local by an inner declaration is rejected (one flat environment per function).
+//   - a local that shadows another gets its own environment slot (name#k);
+//   - WHAT is passed for a function-typed parameter at a call site is recorded in the generated file
+//     (Definition binding_<caller>_<param> := (callee, param, "Recv.method(receiver)" | function | source text)), so that
+//     a theorem interpreting the oracle as that function can name the fact and breaks when another function is passed;
+//   - errors: errors.New / fmt.Errorf values are identified by their constructor, not their text; fmt.Errorf with a %w
+//     verb is EWrap of the wrapped operand (a NEW error value: `e == ErrX` (EErrIs) is false for it, errors.Is(e, ErrX)
+//     (EErrorsIs) sees through the wrapping);
+//   - a slice of struct values is the list of its values: make([]T, 0) is "makev", append(s, v) is "appendv";
+//   - x.f[i] = e and copy(x.f[a:b], src) on an integer-sequence field go through a temporary.
 
 import (
 	"fmt"
@@ -48,6 +56,7 @@ type glGroup struct {
 	hoist   bool              // give the locals declared inside a loop body their zero value before the loop (one environment shape for proofs; dead stores in Go terms)
 	devirt  map[string]string // interface type name -> the one translated type whose methods its calls resolve to
 	more    []glGroup // further packages translated into the same file (their pkgDir/prefix/funcs/externs)
+	consts  map[string]string // integer constants of third-party packages (not type-checked here): "pkg.Name" -> value
 }
 
 func registerGoLite(g glGroup) {
@@ -168,6 +177,7 @@ type glTr struct {
 	externs map[string]bool
 	externOut map[string]int
 	recvPath map[*ast.CallExpr][]string
+	bindings []string // what is passed for a function-typed (oracle) parameter at each call site
 }
 
 type glFn struct {
@@ -326,6 +336,7 @@ func glTranslatePart(repo string, g glGroup) (defs string, names, lemmas []strin
 		names = append(names, fmt.Sprintf("(%s, %s)", glStr(fn.spec.alias), cname))
 		lemmas = append(lemmas, fmt.Sprintf("Lemma prog_%s : plookup %s prog = Some fn_%s.\nProof. reflexivity. Qed.\n", glIdent(fn.spec.alias), glStr(fn.spec.alias), glIdent(fn.spec.alias)))
 	}
+	lemmas = append(lemmas, t.bindings...)
 	return b.String(), names, lemmas, nil
 }
 
@@ -584,6 +595,25 @@ func (t *glTr) calleeOf(c *ast.CallExpr) (*glFn, []ast.Expr) {
 		}
 	}
 	return nil, nil
+}
+
+// oracleArgText: a canonical text for the argument passed for a function-typed parameter: "Recv.method(receiver
+// expression)" for a method value of a translated function, the function's alias for a translated function, else the
+// source text of the expression
+func (t *glTr) oracleArgText(a ast.Expr) string {
+	switch x := a.(type) {
+	case *ast.Ident:
+		if fn, ok := t.byObj[t.p.info.Uses[x]]; ok {
+			return fn.spec.alias
+		}
+	case *ast.SelectorExpr:
+		if sel, ok := t.p.info.Selections[x]; ok && sel.Kind() == types.MethodVal {
+			if fn, ok := t.byObj[sel.Obj()]; ok {
+				return fn.spec.alias + "(" + types.ExprString(x.X) + ")"
+			}
+		}
+	}
+	return types.ExprString(a)
 }
 
 // notePromoted records the embedded-field path between the written receiver and the method's real receiver
@@ -880,6 +910,9 @@ func (t *glTr) expr(c *glCtx, e ast.Expr) string {
 	case *ast.SelectorExpr:
 		if id, ok := x.X.(*ast.Ident); ok {
 			if _, isPkg := t.p.info.Uses[id].(*types.PkgName); isPkg {
+				if v, ok := t.g.consts[id.Name+"."+x.Sel.Name]; ok {
+					return "EInt " + glZ(v)
+				}
 				if v, ok := t.p.info.Uses[x.Sel].(*types.Var); ok && isErrorType(v.Type()) {
 					return "EErr " + glStr(id.Name+"."+x.Sel.Name) // io.EOF and the like
 				}
@@ -968,6 +1001,13 @@ func (t *glTr) callExpr(c *glCtx, x *ast.CallExpr) string {
 		}
 		to := t.p.info.TypeOf(x.Fun)
 		from := t.p.info.TypeOf(x.Args[0])
+		if sy, ok := x.Args[0].(*ast.SelectorExpr); ok && isIntType(to) {
+			if pid, ok := sy.X.(*ast.Ident); ok {
+				if _, declared := t.g.consts[pid.Name+"."+sy.Sel.Name]; declared {
+					return fmt.Sprintf("EConv %s (%s)", t.ity(x, to), t.expr(c, x.Args[0]))
+				}
+			}
+		}
 		if isIntType(to) && isIntType(from) {
 			return fmt.Sprintf("EConv %s (%s)", t.ity(x, to), t.expr(c, x.Args[0]))
 		}
@@ -1132,6 +1172,10 @@ func (t *glTr) callStmt(c *glCtx, x *ast.CallExpr, lhs []string) (string, int) {
 		}
 		for i, a := range args {
 			if full[i].isFunc {
+				// the oracle parameter is dropped from the call; WHAT is passed for it is recorded as a definition of
+				// the generated file, so that theorems which interpret the oracle as that function can name the fact
+				t.bindings = append(t.bindings, fmt.Sprintf("Definition binding_%s_%s : string * string * string :=\n  (%s, %s, %s).\n",
+					glIdent(c.fn.spec.alias), glIdent(full[i].name), glStr(callee.spec.alias), glStr(full[i].name), glStr(t.oracleArgText(a))))
 				continue
 			}
 			ae := t.expr(c, a)
@@ -1173,6 +1217,11 @@ func (t *glTr) callStmt(c *glCtx, x *ast.CallExpr, lhs []string) (string, int) {
 		if recvArg != "" {
 			as = append(as, recvArg)
 		}
+	} else if sel, ok := x.Fun.(*ast.SelectorExpr); ok && name == "" && t.externs["*."+sel.Sel.Name] {
+		// a method of a value whose type belongs to a third-party package that is not type-checked here (an opaque
+		// value produced by another oracle): the oracle "*.<Method>" receives the value first
+		name = "*." + sel.Sel.Name
+		as = append(as, t.expr(c, sel.X))
 	} else if !t.externs[name] {
 		t.fail(x, "call of %q: not a translated function, a function parameter or a declared external", name)
 	}
@@ -1562,6 +1611,17 @@ func (t *glTr) stmt(fn *glFn, s ast.Stmt) string {
 		if x.Init != nil {
 			pre = append(pre, t.stmt(fn, x.Init))
 		}
+		// `if A && B { body }` (no else) whose B calls something: B is evaluated only when A holds, so it becomes
+		// if A { <calls of B>; if B { body } }
+		if be, ok := x.Cond.(*ast.BinaryExpr); ok && be.Op == token.LAND && x.Else == nil && glHasCall(be.Y) {
+			condA := t.expr(c, be.X)
+			preA := append(pre, c.pre...)
+			c2 := &glCtx{fn: fn}
+			condB := t.expr(c2, be.Y)
+			thenS := t.block(fn, x.Body.List)
+			inner := glSeq(append(append([]string{}, c2.pre...), fmt.Sprintf("SIf (%s)\n(%s)\n(SSkip)", condB, thenS)))
+			return glSeq(append(preA, fmt.Sprintf("SIf (%s)\n(%s)\n(SSkip)", condA, inner)))
+		}
 		cond := t.expr(c, x.Cond)
 		thenS := t.block(fn, x.Body.List)
 		elseS := "SSkip"
@@ -1844,4 +1904,19 @@ func glWrapVerbArg(format string) int {
 		}
 	}
 	return -1
+}
+
+// glHasCall: does the expression contain a call that is not a conversion / len / cap?
+func glHasCall(e ast.Expr) bool {
+	found := false
+	ast.Inspect(e, func(n ast.Node) bool {
+		if c, ok := n.(*ast.CallExpr); ok {
+			if id, ok := c.Fun.(*ast.Ident); ok && (id.Name == "len" || id.Name == "cap" || id.Name == "uint64" || id.Name == "int64" || id.Name == "int" || id.Name == "uint" || id.Name == "uint32" || id.Name == "uint8" || id.Name == "byte") {
+				return true
+			}
+			found = true
+		}
+		return true
+	})
+	return found
 }
